@@ -1,15 +1,64 @@
-"""C19 - byte order changes only the bytes inside scalars; padding always zero (E1 python part; E2 part added when llsym lands)."""
+"""C19 - byte order changes only the bytes inside scalars; padding always zero.
+Python codec: E1 (CrossHair) on encode('<') vs encode('>') of one symbolic message.
+C++ full codec: E2 (llsym) on encode<little> / encode<big> / encode<native> of one object decoded from the reference."""
+import os
 import time
-from . import common as C
-from . import codec_e1 as X
 
-BOUNDS = dict(family='F (vf/family.py)', array_lengths='{0,1,2}', values='all integer values, presence, arm symbolic',
-              outside='floats symbolic; paths where the little-endian layout differs from the reference are C01 business and not asserted here')
+from . import common as C
+from . import wirespec as W
+from . import family as F
+from . import codec_e1 as X1
+from . import cppharness as X
+from . import p_c03
+
+BOUNDS = dict(family='F (vf/family.py); C++ part: C++-eligible F', array_lengths='{0,1,2}', values='all integer values, presence, arm symbolic (C++: presence/arm per query)',
+              outside='python: floats symbolic; paths where the little-endian image differs from the reference are C01 business and not asserted here')
+
+
+def confirm_cpp(chunk, shape, e, viol, _L):
+    hx = viol.get('input_hex')
+    if not hx:
+        return None, 'no witness'
+    r = X.native_decode(chunk, shape, 'le', bytes.fromhex(hx))
+    if r.get('error') or 'le' not in r:
+        return None, 'native: %s' % (r.get('error') or r.get('stdout', '')[:120])
+    d = viol['_desc']
+    fam = dict((s.name, s) for s in chunk['shapes'])
+    t = fam[shape]
+    src = X.Z3Source(d['lengths'], d['presence'], d['arms'])
+    v = X.make_value_z3(t, src)
+    bm = []
+    W.encode(t, v, '<', ops=X.Z3Ops, bmap=bm)
+    le, be, na = bytes.fromhex(r['le']), bytes.fromhex(r['be']), bytes.fromhex(r['na'])
+    bad = len(le) != len(be) or len(le) != len(na) or na != le or len(le) != len(bm)
+    if not bad:
+        for i, m in enumerate(bm):
+            if m is None:
+                bad = bad or le[i] != 0 or be[i] != 0
+            else:
+                bad = bad or be[i] != le[i - m[1] + (m[2] - 1 - m[1])]
+    return bad, 'native: le=%s be=%s na=%s' % (r['le'][:48], r['be'][:48], r['na'][:48])
 
 
 def run(tier):
     t0 = time.time()
-    obs, conds, fam, _ = X.run_value_checks('C19', tier, ['end'])
-    return C.finish('C19', tier, obs, t0, functions=X.FUNCS_ENC, bounds=BOUNDS,
-                    assumptions=['byte map taken from vf/wirespec.py', 'engine patches 1-6'],
-                    extra=dict(shapes=len(fam['shapes']), signature_rule=X.explain_note()))
+    obs, conds, fam, _ = X1.run_value_checks('C19', tier, ['end'])
+    for o in obs:
+        o.oid = 'python/' + o.oid
+    errors = []
+    if not os.environ.get('VF_ONLY') or 'cpp' in os.environ.get('VF_ONLY', ''):
+        work = C.workdir('C19-cpp')
+        ftier = 'quick' if tier == 'quick' else 'thorough'
+        shapes = [s for s in F.family(ftier) if F.cpp_full_eligible(s)]
+        chunks = X.prepare(work, shapes, chunk=8)
+        errors = [c['error'] for c in chunks if c['error']]
+        tasks = p_c03.build_tasks(chunks, tier, ftier, query='q_byteorder', ends=('all',), cap=4 if tier == 'quick' else 16, tag='cpp-byteorder')
+        results = X.run_tasks(tasks)
+        for r in results:
+            for v in r.get('violations', []):
+                v['_desc'] = r['desc']
+        obs += X.to_obligations('C19', results, chunks, 'cpp-byteorder', confirm=confirm_cpp)
+    return C.finish('C19', tier, obs, t0, functions=X1.FUNCS_ENC + ['message_impl<X>::encode<little|big|native> (IR)', 'encode_int specialisations', 'message<X>::decode<little> (to build the object)'],
+                    bounds=BOUNDS,
+                    assumptions=['byte map taken from vf/wirespec.py', 'engine patches 1-6', 'C++: output buffers zero-initialised as message::encode<E>() does; native == little on this host'],
+                    extra=dict(shapes=len(fam['shapes']), signature_rule=X1.explain_note(), build_errors=errors[:5]), errors=errors[:3])
